@@ -389,3 +389,48 @@ VARIANTS[-1]["edits"].append(("codelimit/commands/report.py", "from codelimit.ut
                               "from codelimit.utils import read_report, make_report_path\nfrom codelimit.common.report.ReportReader import ReportReader\n"))
 V("C09", "result-seeded-from-cache", "fire", (SCN, "    result = Codebase(str(path.resolve().absolute()))\n", "    result = cached_report.codebase if cached_report else Codebase(str(path.resolve().absolute()))\n"),
   "deleted files survive from the cache", "scan_path/result")
+
+# ------------------------------------------------------------------ C06
+V("C06", "consume-break-first", "fire", (PAT, "                found_transition = True\n                self.tokens.append(item)\n                self.state = transition[1]\n",
+                                         "                found_transition = True\n                self.tokens.append(item)\n                self.state = transition[1]\n                break\n"),
+  "first accepting transition wins: depends on transition list order (hash seed)", "first-match")
+V("C06", "consume-no-raise", "fire", (PAT, "                if found_transition:\n                    raise ValueError(\"Multiple transitions found!\")\n", ""),
+  "last accepting transition silently wins", "no-raise")
+V("C06", "no-deepcopy", "fire", (PAT, "            self.predicate_map[predicate_id] = deepcopy(predicate)", "            self.predicate_map[predicate_id] = predicate"),
+  "Balanced.depth shared between attempts and files", "Pattern.consume")
+V("C06", "copy-map-by-class", "silent", (PAT, "predicate_id = id(predicate)", "predicate_id = id(predicate)  # key"), "comment only")
+V("C06", "module-level-dfa-cache", "fire", (MATCHER, "def find_all(expression: Expression, sequence: list) -> list[Pattern]:\n    dfa = nfa_to_dfa(expression_to_nfa(expression))\n",
+                                            "_DFA_CACHE: dict = {}\n\n\ndef find_all(expression: Expression, sequence: list) -> list[Pattern]:\n    key = str(expression)\n    if key not in _DFA_CACHE:\n        _DFA_CACHE[key] = nfa_to_dfa(expression_to_nfa(expression))\n    dfa = _DFA_CACHE[key]\n"),
+  "mutable cache hoisted to module level and written during analysis", "_DFA_CACHE")
+V("C06", "default-excludes-in-place", "fire", (SCN, "    excludes = DEFAULT_EXCLUDES.copy()\n", "    excludes = DEFAULT_EXCLUDES\n"),
+  "built-in exclusions grow with every scan of the process", "DEFAULT_EXCLUDES")
+V("C06", "closure-returns-list-first", "fire", (EXPR, "def state_set_id(states: set[State]) -> str:\n    return \", \".join([str(id) for id in sorted([state.id for state in states])])",
+                                                "def state_set_id(states: set[State]) -> str:\n    return \", \".join([str(state.id) for state in states])"),
+  "state-set identity depends on set iteration order", "state_set_id")
+V("C06", "uuid-in-measurement", "fire", (SCN, "    file_loc = sum([m.value for m in measurements])\n", "    file_loc = sum([m.value for m in measurements])\n    logging.info(str(uuid4()))\n"),
+  "random source on the analysis path", "uuid4")
+VARIANTS[-1]["edits"].append((SCN, "import locale\n", "import locale\nfrom uuid import uuid4\n"))
+V("C06", "languages-counter-write", "fire", (SCN, "    language = Languages.by_name[language_name]\n", "    language = Languages.by_name[language_name]\n    Languages.by_name[language_name] = language\n"),
+  "registry written during analysis", "Languages.by_name")
+V("C06", "python-two-balanced", "fire", (PYL, "[Keyword(\"def\"), Name(), OneOrMore(Balanced(\"(\", \")\"))]", "[Keyword(\"def\"), Name(), Balanced(\"(\", \")\"), ZeroOrMore(Balanced(\"(\", \")\"))]"),
+  "two equal stateful atoms merged through a set", "duplicate-stateful-atom")
+VARIANTS[-1]["edits"].append((PYL, "from codelimit.common.gsm.operator.OneOrMore import OneOrMore\n",
+                              "from codelimit.common.gsm.operator.OneOrMore import OneOrMore\nfrom codelimit.common.gsm.operator.ZeroOrMore import ZeroOrMore\n"))
+V("C14", "drain-fresh-local-silent", "silent", (MATCHER, """        if fs.matches and pattern.start < fs.matches[-1].end:
+            continue
+        if pattern.is_accepting():
+            pattern.end = len(sequence)""", """        last_end = fs.matches[-1].end if fs.matches else 0
+        if pattern.start < last_end:
+            continue
+        if pattern.is_accepting():
+            pattern.end = len(sequence)"""), "last end recomputed in every iteration")
+V("C14", "drain-stale-local", "fire", (MATCHER, """    for pattern in fs.active_patterns:
+        if fs.matches and pattern.start < fs.matches[-1].end:
+            continue
+        if pattern.is_accepting():
+            pattern.end = len(sequence)""", """    last_end = fs.matches[-1].end if fs.matches else 0
+    for pattern in fs.active_patterns:
+        if pattern.start < last_end:
+            continue
+        if pattern.is_accepting():
+            pattern.end = len(sequence)"""), "end read once before the loop", "drain loop")
